@@ -202,9 +202,75 @@ static void run_trial(int idx)
 	free(t);
 }
 
+/* ---- clockgap mode: directed preemption between two clock reads -------------------
+ * A deadline on the uptime clock has to be converted to an absolute CLOCK_REALTIME time
+ * for sem_timedwait(). The harness interposes clock_gettime() (the executable's
+ * definition pre-empts libc's for the library) and, when armed by the waiting thread,
+ * stalls right after a CLOCK_REALTIME reading — exactly what a preemption at that point
+ * does. "Non-zero only after the full timeout" must still hold. */
+#if !VF_ASAN && !VF_TSAN
+#include <sys/syscall.h>
+static __thread uint32_t tl_gap_ns;
+static _Atomic uint64_t g_gaps_injected;
+int clock_gettime(clockid_t clk, struct timespec *ts)
+{
+	int r = (int)syscall(SYS_clock_gettime, clk, ts);
+	if (tl_gap_ns && clk == CLOCK_REALTIME) {
+		uint32_t g = tl_gap_ns;
+		tl_gap_ns = 0;
+		atomic_fetch_add(&g_gaps_injected, 1);
+		struct timespec sl = { 0, (long)g };
+		syscall(SYS_nanosleep, &sl, NULL);
+	}
+	return r;
+}
+static void run_clockgap_trial(int idx)
+{
+	vf_rng_t r;
+	vf_rng_seed(&r, vf_opts.seed, (uint64_t)idx * 1201 + 71);
+	vf_perturb_off();
+	dispatch_semaphore_t s = dispatch_semaphore_create(0);
+	dispatch_group_t g = dispatch_group_create();
+	dispatch_group_enter(g);
+	uint64_t n = 0, early = 0;
+	vf_watch_begin("sema:clockgap", 0);
+	for (int i = 0; i < 40; i++) {
+		uint32_t gap = vf_rnd_range(&r, 200000, 1500000);
+		int64_t d = (int64_t)gap + (int64_t)vf_rnd_range(&r, 100000, 1000000);
+		int clk = (i % 4 == 3) ? VF_CLK_WALL : VF_CLK_UPTIME;
+		dispatch_time_t when = vf_make_deadline(clk, d, i & 1);
+		vf_deadline_t dl = vf_decode_time(when);
+		tl_gap_ns = gap;
+		intptr_t rc = (i % 8 == 7) ? dispatch_group_wait(g, when) : dispatch_semaphore_wait(s, when);
+		tl_gap_ns = 0;
+		uint64_t now = vf_now_ns(dl.clk);
+		n++;
+		if (rc == 0) vf_violation("C08:spurious-success", "wait on an exhausted semaphore / non-empty group returned 0");
+		else if (now < dl.value && early++ < 3) {
+			vf_violation(clk == VF_CLK_WALL ? "C08:timeout-before-deadline:wall" : "C08:timeout-before-deadline:uptime",
+					"timed wait returned non-zero %llu ns before its deadline on the %s clock when the calling thread was delayed %u ns right after a CLOCK_REALTIME reading inside the call (deadline %llu, now %llu)",
+					(unsigned long long)(dl.value - now), vf_clk_names[dl.kind], gap, (unsigned long long)dl.value, (unsigned long long)now);
+		}
+		vf_progress();
+	}
+	vf_watch_end();
+	dispatch_group_leave(g);
+	dispatch_release(g); dispatch_release(s);
+	vf_count("clockgap_waits", n);
+	vf_count("clockgap_delays_injected", atomic_exchange(&g_gaps_injected, 0));
+	vf_count("timeouts", n);
+	vf_emit("trial", "\"n\":%llu,\"sig\":\"clockgap-%d\",\"nontrivial\":true,\"sample\":{\"trial\":%d,\"scenario\":\"delay after CLOCK_REALTIME reading inside a timed wait\",\"waits\":%llu}", (unsigned long long)n, idx % 4, idx, (unsigned long long)n);
+}
+#else
+static void run_clockgap_trial(int idx) { (void)idx; }
+#endif
+
 int main(int argc, char **argv)
 {
 	vf_init(argc, argv, "h_sema");
-	for (int i = 0; i < vf_opts.trials; i++) run_trial(vf_opts.first_trial + i);
+	for (int i = 0; i < vf_opts.trials; i++) {
+		if (!strcmp(vf_opts.mode, "clockgap")) run_clockgap_trial(vf_opts.first_trial + i);
+		else run_trial(vf_opts.first_trial + i);
+	}
 	return vf_finish();
 }
